@@ -43,7 +43,8 @@ K19 = "refusal:NormalizingException@atom_cond.py:get_normalized:fixed-loop-const
 K20 = "refusal:NormalizingException@conditions_normalizer.py:_try_abstract_failed_condition:simultaneous-assignment-inside-a-branch-of-a-condition-variable:_t-temporary-untyped"
 K21 = "refusal:NormalizingException@conditions_normalizer.py:_try_abstract_failed_condition:finite-variable-reassigned-from-itself:unconditional-version-typed-with-its-default"
 K22 = "refusal:NormalizingException@conditions_normalizer.py:_try_abstract_failed_condition:finite-variable-reassigned-from-itself:guarded-version-typed-with-its-default"
-KNOWN_SHAPES = {K21: "multi-assign-finite", K22: "multi-assign-finite", K20: "simult-in-branch", K12: "nested-reassign", K16: "categorical-in-branch", K17: "nonint-values", K18: "goal-over-constant", K19: "const-in-cond"}
+K20B = "not-effective:simultaneous-assignment-inside-a-branch-of-a-finite-variable:_t-temporary-untyped:finite-coefficient-counted-as-infinite"
+KNOWN_SHAPES = {K20B: "simult-in-branch", K21: "multi-assign-finite", K22: "multi-assign-finite", K20: "simult-in-branch", K12: "nested-reassign", K16: "categorical-in-branch", K17: "nonint-values", K18: "goal-over-constant", K19: "const-in-cond"}
 
 
 # ---- class membership, decided in the kernel --------------------------------------------------
@@ -248,7 +249,6 @@ def worklist_part(ctx, cases):
     for (name, _), (text, m, pm, symbols, allfin) in zip(files, kept):
         ok, o = outs[name]
         o = re.sub(r"\s+", " ", o)
-        ctx.coverage["obligations"] += 1
         mm = re.search(r"=\s*\((true|false),\s*(\[.*?\])\)\s*:\s*bool \* list", o, re.S) if ok else None
         closed = re.search(r"=\s*(true|false)\s*:\s*bool", o) if ok else None
         if not mm:
@@ -276,13 +276,20 @@ def worklist_part(ctx, cases):
                           f"Polar's flat program: only Polar {sorted(polar_ms - model_ms)}, only model {sorted(model_ms - polar_ms)}\n{text}",
                           no_input=True)
             continue
-        if closed and closed.group(1) == "true":
+        ctx.coverage["obligations"] += 1
+        if closed is None or closed.group(1) == "true":
             agree += 1
             ctx.coverage["discharged"] += 1
-        if allfin:
+        else:
+            ctx.violation(f"worklist-universe:{text}:{m}", {"program_text": text, "goal": m},
+                          f"the system returned by the Coq worklist for {m} is not a closed universe (contradicts C18_returned_system_bounds_fuel)", no_input=True)
+        fm = re.search(r"=\s*\((true|false),\s*(\d+)(?:%nat)?\)\s*:\s*bool \* nat", o) if allfin else None
+        if allfin and fm is None:
+            ctx.coverage.setdefault("worklist_unevaluated", 0)
+            ctx.coverage["worklist_unevaluated"] += 1
+        elif allfin:
             ctx.coverage["obligations"] += 1
-            fm = re.search(r"=\s*\((true|false),\s*(\d+)(?:%nat)?\)\s*:\s*bool \* nat", o)
-            if fm and fm.group(1) == "true":
+            if fm.group(1) == "true":
                 n_fin += 1
                 ctx.coverage["discharged"] += 1
                 if len(pm) > int(fm.group(2)):
@@ -448,7 +455,9 @@ def run(ctx):
         if cl is not None:
             polar_def = set(r["defective"]) & set(P.prog_vars(p))
             if not polar_def <= set(cl["defective"]):
-                ctx.violation(f"defective-vars:{text}", dict(replay, polar_defective=sorted(polar_def), model_defective=cl["defective"]),
+                untyped_t = any(re.fullmatch(r"_t\d+", x) and x not in r["finite_variables"] for x in r["variables"])
+                k20b = untyped_t and classgen.simult_in_branch_assigns_condition_variable(p, among=cl["typed"])
+                ctx.violation(K20B if k20b else f"defective-vars:{text}", dict(replay, polar_defective=sorted(polar_def), model_defective=cl["defective"]),
                               f"Polar classifies {sorted(polar_def - set(cl['defective']))} as defective, the model of the dependency graph "
                               f"on the source program does not\n{text}", no_input=True)
         ex = exact.get(i)
@@ -465,7 +474,10 @@ def run(ctx):
             if "refused" in gr:
                 bump(exc_hist, "not-effective(solvability_check)")
                 if inclass:
-                    ctx.violation(f"not-effective:{text}:{gname}", dict(replay, goal=gname, defective=r["defective"]),
+                    untyped_t = any(re.fullmatch(r"_t\d+", x) and x not in r["finite_variables"] for x in r["variables"])
+                    k20b = cl is not None and untyped_t and classgen.simult_in_branch_assigns_condition_variable(p, among=cl["typed"])
+                    st["refused_known" if k20b else "refused_other"] += 1
+                    ctx.violation(K20B if k20b else f"not-effective:{text}:{gname}", dict(replay, goal=gname, defective=r["defective"]),
                                   f"E({gname}) is refused as not effective although the program is in the class (no non-linear cycle)\n{text}")
                 continue
             if "exception" in gr:
@@ -539,7 +551,7 @@ def run(ctx):
     for st in shape_stat.values():
         st["acceptance_rate"] = round(st["accepted"] / st["programs"], 3) if st["programs"] else None
         st["closed_form_rate"] = round(st["closed_forms"] / st["monomials"], 3) if st["monomials"] else None
-    ctx.coverage["rule"] = ("programs from harness/classgen.py: 8 minimal witnesses + 15 in-class shapes (constants in conditions, nested branches "
+    ctx.coverage["rule"] = ("programs from harness/classgen.py: 9 minimal witnesses + 15 in-class shapes (constants in conditions, nested branches "
                             "reassigning their condition variables, non-integer finite values, goals over loop constants, simultaneous assignment in "
                             "branches, categorical expansion in a branch, multiple assignment of finite variables, guards, linear cycles, acyclic "
                             "non-linear dependencies, variable location parameters, 3..6-valued finite variables, all-finite programs, gen.G programs) + 7 out-of-class shapes; class membership = "
